@@ -114,7 +114,27 @@ def Q(cls, q):
     return obj
 
 
-def make_element(e, name):
+_SUBCLASSES = {}
+
+
+def user_subclass(cls):
+    """An empty user-defined subclass of a library class (class MySpurGear(SpurGear): pass): same behaviour expected."""
+    if cls not in _SUBCLASSES:
+        _SUBCLASSES[cls] = type('My' + cls.__name__, (cls,), {})
+    return _SUBCLASSES[cls]
+
+
+def make_element(e, name, subclass=False):
+    if subclass or e.get('subclass'):
+        e = {k: v for k, v in e.items() if k != 'subclass'}
+        g = globals()
+        saved = {n: g[n] for n in ('DCMotor', 'Flywheel', 'SpurGear', 'HelicalGear', 'WormGear', 'WormWheel')}
+        try:
+            for n, c in saved.items():
+                g[n] = user_subclass(c)
+            return make_element(e, name)
+        finally:
+            g.update(saved)
     k = e['k']
     if k == 'M':
         return DCMotor(name=name, inertia_moment=Q(InertiaMoment, e['J']),
@@ -180,7 +200,7 @@ class Model:
         self.spec = spec
         els = spec['elements']
         self.names = names or [f"{e['k']}{i}" for i, e in enumerate(els)]
-        self.elements = [make_element(e, n) for e, n in zip(els, self.names)]
+        self.elements = [make_element(e, n, subclass=bool(spec.get('subclass_elements'))) for e, n in zip(els, self.names)]
         # relations declared (and later overridden) before the chain itself: a history of re-declarations
         self.spares = [make_element(e, f"spare{i}") for i, e in enumerate(spec.get('spares', []))]
         everything = self.elements + self.spares
@@ -412,3 +432,63 @@ def slice_obs(obs, a, b):
     """Observation restricted to instants a..b-1."""
     return {'time': obs['time'][a:b],
             'el': [{var: ser[a:b] for var, ser in e.items()} for e in obs['el']]}
+
+
+# ---------------------------------------------------------------------------------------------------------
+# A process that has already seen some simulation history (module-level state must not leak out of it)
+# ---------------------------------------------------------------------------------------------------------
+class _UserAbort(RuntimeError):
+    pass
+
+
+def disturb_process(probe=None):
+    """Runs, in this process: a complete run; a run ended by a stop condition; a run aborted by an exception raised
+    from the user's load function at its third instant; a run aborted by the library's own ValueError (two applicable
+    rules).  `probe()` -> list of failure strings is also called from INSIDE the load function of the complete run
+    (user code executing during the time loop).  Returns the failures collected there.
+    Afterwards the caller repeats its ordinary checks: every property about quantities and components holds in a
+    process whatever simulations ran, finished or failed in it before."""
+    from gearpy.motor_control import PWMControl
+    from gearpy.motor_control.rules import ConstantPWM
+    from gearpy.sensors import Timer
+    spec = {'elements': [{'k': 'M', 'J': [1.0, 'gm^2'], 'w0': [2000.0, 'rpm'], 'Tmax': [10.0, 'mNm'], 'i0': [0.1, 'A'], 'imax': [2.0, 'A']},
+                         {'k': 'S', 'z': 20, 'J': [5.0, 'gm^2']}, {'k': 'S', 'z': 30, 'J': [5.0, 'gm^2']}],
+            'links': [{'t': 'J'}, {'t': 'G', 'eta': 0.9}], 'load': ['const', 0.001],
+            'init': {'theta': [0.0, 'rad'], 'w': [0.0, 'rad/s']}}
+    inside = []
+    # 1. complete run, the probe called from inside the loop
+    m = Model(spec)
+    orig = m.elements[-1].external_torque
+
+    def probing(time, angular_position, angular_speed):
+        if probe is not None and len(m.pt.time) == 3:
+            inside.extend('inside-the-time-loop: ' + f for f in probe())
+        return orig(time=time, angular_position=angular_position, angular_speed=angular_speed)
+    m.elements[-1].external_torque = probing
+    m.run([0.125, 'sec'], [0.5, 'sec'])
+    # 2. run ended by a stop condition
+    m = Model(spec)
+    m.run([0.125, 'sec'], [1.0, 'sec'], stop=make_stop(m, ['tachometer', 0, '>=', [1.0, 'rad/s']]))
+    # 3. run aborted by the user's load function
+    m = Model(spec)
+    orig3 = m.elements[-1].external_torque
+
+    def failing(time, angular_position, angular_speed):
+        if len(m.pt.time) >= 3:
+            raise _UserAbort('load function gives up')
+        return orig3(time=time, angular_position=angular_position, angular_speed=angular_speed)
+    m.elements[-1].external_torque = failing
+    try:
+        m.run([0.125, 'sec'], [1.0, 'sec'])
+    except _UserAbort:
+        pass
+    # 4. run aborted by the library itself: two rules applicable at once
+    m = Model(spec)
+    ctl = PWMControl(powertrain=m.pt)
+    ctl.add_rule(ConstantPWM(timer=Timer(Time(0.2, 'sec'), TimeInterval(1.0, 'sec')), powertrain=m.pt, target_pwm_value=0.5))
+    ctl.add_rule(ConstantPWM(timer=Timer(Time(0.3, 'sec'), TimeInterval(1.0, 'sec')), powertrain=m.pt, target_pwm_value=0.7))
+    try:
+        m.run([0.125, 'sec'], [1.0, 'sec'], control=ctl)
+    except ValueError:
+        pass
+    return inside
